@@ -14,6 +14,9 @@ import (
 	"github.com/cloudwego/hertz/pkg/common/config"
 	"github.com/cloudwego/hertz/pkg/route"
 
+	"github.com/cloudwego/hertz/pkg/app/server"
+
+	"verif/harness/lib/loop"
 	"verif/harness/lib/mon"
 	"verif/harness/lib/rig"
 	"verif/harness/lib/sconn"
@@ -26,6 +29,7 @@ func main() {
 		Rule: "each case = one connection with a POST whose body (length 0..70000, Content-Length or chunked with seeded chunk sizes, position-coded, optionally carrying request-looking text '0 CRLF CRLF GET /smuggled-<id> ...' right at the point where the handler stops) is consumed by a consumption program (read-size sequence, stop after k bytes or read to the end) and followed by a pipelined probe request, under seeded segmentation; family exh enumerates every stop point (incl. 0 and mid-chunk) of bodies up to 64 bytes; family stall ends the input right after the body and stalls, so a read that needs bytes beyond the body shows as a blocked handler; " +
 			"distinct = hash of (body length, encoding, chunk sizes, stop point, read sizes, segmentation policy); non-trivial = handler stops before the end or the body crosses 4096 bytes",
 		Assumptions: []string{
+			"loopback family: the same cases over real TCP against real servers on the standard and netpoll transports (fragmentation best effort)",
 			"closing the connection instead of draining the unread remainder is always allowed (then nothing further may be served)",
 			"the handler's view of the probe and of its own request is judged by marker targets: every sent request and every planted request-looking text carries a unique target",
 		},
@@ -36,7 +40,7 @@ func main() {
 			return 8
 		},
 		Floors: func(t string) map[string]int64 {
-			return map[string]int64{"connections": 4000, "probe_served_after_partial_read": 300, "stop_points_enumerated": 1000, "stall_cases_handler_finished": 300}
+			return map[string]int64{"connections": 4000, "probe_served_after_partial_read": 300, "stop_points_enumerated": 1000, "stall_cases_handler_finished": 300, "loopback_connections_netpoll": 300}
 		},
 		Work: work,
 	})
@@ -67,8 +71,8 @@ func trunc(s string, n int) string {
 func work(w *mon.W) {
 	st := &state{}
 	opt := rig.Options(func(o *config.Options) { o.StreamRequestBody = true })
-	e := rig.NewEngine(opt, func(e *route.Engine) {
-		e.NoRoute(func(c context.Context, ctx *app.RequestContext) {
+	handler := func(st *state) app.HandlerFunc {
+		return func(c context.Context, ctx *app.RequestContext) {
 			p := string(ctx.Method()) + " " + string(ctx.Request.RequestURI())
 			st.mu.Lock()
 			st.paths = append(st.paths, p)
@@ -107,9 +111,45 @@ func work(w *mon.W) {
 			}
 			ctx.SetStatusCode(200)
 			ctx.Response.SetBodyString("ok:" + string(ctx.Request.RequestURI()))
-		})
+		}
+	}
+	e := rig.NewEngine(opt, func(e *route.Engine) { e.NoRoute(handler(st)) })
+	// real servers on loopback for both transports (streaming on)
+	type lbs struct {
+		s  *loop.Server
+		st *state
+	}
+	lbServers := map[bool]*lbs{}
+	getLB := func(np bool) *lbs {
+		if x, ok := lbServers[np]; ok {
+			return x
+		}
+		lst := &state{}
+		srv, err := loop.Start(np, func(h *server.Hertz) { h.NoRoute(handler(lst)) }, server.WithStreamBody(true))
+		if err != nil {
+			w.Note("loopback server did not start: " + err.Error())
+			lbServers[np] = nil
+			return nil
+		}
+		lbServers[np] = &lbs{srv, lst}
+		return lbServers[np]
+	}
+	defer func() {
+		for _, x := range lbServers {
+			if x != nil {
+				x.s.Stop()
+			}
+		}
+	}()
+	w.Cases("conn", uint64(w.Pick(40000, 1500000)), func(c *mon.Case) { oneConn(w, c, e, st, nil, nil) })
+	w.Cases("loopback", uint64(w.Pick(3000, 60000)), func(c *mon.Case) {
+		np := c.R.Bool()
+		x := getLB(np)
+		if x == nil {
+			return
+		}
+		oneConn(w, c, nil, x.st, nil, x.s)
 	})
-	w.Cases("conn", uint64(w.Pick(40000, 1500000)), func(c *mon.Case) { oneConn(w, c, e, st, nil) })
 	// exhaustive stop points for small bodies
 	w.Cases("exh", uint64(w.Pick(100, 3000)), func(c *mon.Case) {
 		r := c.R
@@ -129,7 +169,7 @@ func work(w *mon.W) {
 		for stop := 0; stop <= L; stop++ {
 			fx := &fixed{L: L, chunked: chunked, chunks: chunks, stop: stop}
 			sub := &mon.Case{W: w, I: c.I, G: c.G, R: r.Fork()}
-			oneConn(w, sub, e, st, fx)
+			oneConn(w, sub, e, st, fx, nil)
 			w.Count("stop_points_enumerated", 1)
 			if sub.Violated() {
 				return
@@ -189,7 +229,7 @@ func buildBody(r *mon.Rand, id uint64, L int, chunked bool, chunks []int, stop i
 	return body, w.Bytes(), chunks
 }
 
-func oneConn(w *mon.W, c *mon.Case, e *route.Engine, st *state, fx *fixed) {
+func oneConn(w *mon.W, c *mon.Case, e *route.Engine, st *state, fx *fixed, lb *loop.Server) {
 	r := c.R
 	id := c.G*1000 + uint64(r.Intn(1000))
 	var L, stop int
@@ -226,10 +266,29 @@ func oneConn(w *mon.W, c *mon.Case, e *route.Engine, st *state, fx *fixed) {
 		if len(cs) > 30 {
 			cs = cs[:30]
 		}
-		return map[string]interface{}{"body_len": L, "chunked": chunked, "chunks": cs, "stop_after": stop, "read_sizes": pl.readSizes, "planted_request_text": plant, "policy": policy, "frag_sizes": wire.FragSizes(frags), "buf": buf}
+		return map[string]interface{}{"body_len": L, "chunked": chunked, "chunks": cs, "stop_after": stop, "read_sizes": pl.readSizes, "planted_request_text": plant, "policy": policy, "frag_sizes": wire.FragSizes(frags), "buf": buf, "loopback": lb != nil, "netpoll": lb != nil && lb.Netpoll}
 	}
-	sc := sconn.New(frags, sconn.EOF)
-	res := rig.Serve(e, sc, buf, false, 15*time.Second)
+	var res *rig.Result
+	if lb != nil {
+		if len(frags) > 300 {
+			frags, policy = [][]byte{stream}, "whole"
+		}
+		want := fmt.Sprintf("ok:/probe-%d", id)
+		out, closed, err := lb.Exchange(frags, 0, 8*time.Second, func(out []byte) bool { return bytes.HasSuffix(out, []byte(want)) })
+		res = &rig.Result{Out: out, Closed: closed}
+		if err != nil && !closed {
+			// neither the probe's answer nor a close within 8 s
+			res.Hang = true
+			res.Stack = fmt.Sprintf("(loopback, netpoll=%v) %v", lb.Netpoll, err)
+		}
+		w.Count("loopback_connections", 1)
+		if lb.Netpoll {
+			w.Count("loopback_connections_netpoll", 1)
+		}
+	} else {
+		sc := sconn.New(frags, sconn.EOF)
+		res = rig.Serve(e, sc, buf, false, 15*time.Second)
+	}
 	w.Count("connections", 1)
 	if res.Hang {
 		c.Violate("hang", "Serve did not finish on a finite input (handler blocked?)\n%s", trunc(res.Stack, 2500))
